@@ -714,26 +714,22 @@ def c05_builders(w: World, rep: Report):
     t3_sigflags(w, rep, 'C05.R3', lock, [])
     for wn in PAIRS[lock]:
         t1_pair(w, rep, 'C05.R3', lock, wn)
-    # the root hole is the same expression in the native and the non-native lock
-    a = [h.text for v in cx.variants('make_taproot_lock') for h in v.holes.values() if 'root' in h.text]
-    b = [h.text for v in cx.variants(lock) for h in v.holes.values() if 'root' in h.text]
-    nat = ast.unparse(cx.fi('make_taproot_lock').node)
-    non = ast.unparse(cx.fi(lock).node)
-
-    def root_def(src):
-        for ln in src.split('\n'):
-            if ln.strip().startswith('root ='):
-                return ln.strip()
-        return None
-
-    def x_def(src):
-        for ln in src.split('\n'):
-            if ln.strip().startswith('X ='):
-                return ln.strip().replace(' ', '')
-        return None
-    ok = bool(a) and bool(b) and root_def(nat) == root_def(non) and x_def(nat) == x_def(non)
+    # the root is computed by the same expression in the native and the non-native builder
+    # (holes resolved through the builders' single-assignment locals)
+    def root_exprs(name):
+        out = set()
+        for v in cx.variants(name):
+            tree = [n for n in _walk_nodes(cx.tree(v)) if n.kind == 'op' and n.name == 'OP_PUSH']
+            for n in tree:
+                t = n.operands[0]
+                for h in getattr(t, 'holes', {}).values():
+                    if 'aggregate_points' in h.resolved_text:
+                        out.add(h.resolved_text.replace(' ', ''))
+        return out
+    a, b = root_exprs('make_taproot_lock'), root_exprs(lock)
+    ok = len(a) == 1 and a == b
     rep.check('C05.R3', 'tools|native-and-nonnative-root-same-formula', ok, file=REL,
-              why='' if ok else 'the native and non-native taproot builders compute their root differently')
+              why='' if ok else f'the native and non-native taproot builders compute their root differently: {sorted(a)} vs {sorted(b)}')
 
 
 def c16_builders(w: World, rep: Report):
